@@ -270,12 +270,43 @@ class Merged:
     exprs: Tuple[Optional[str], ...]  # most derived first (length 1 unless additive)
 
 
-def merge_defaults(chain: List[Dict[str, Decl]]) -> Dict[str, Merged]:
-    """chain: declarations per class, most derived class first.
+def c3_mro(name: str, bases: Dict[str, Tuple[str, ...]]) -> List[str]:
+    """Python's C3 linearisation over the described classes (Scenic classes are Python
+    classes; `bases` maps a described class to its bases, anything else is a leaf).
+    The reference does not say how several superclasses are ordered: that "superclasses"
+    means the Python MRO is an assumption of this model."""
 
-    "default values from subclasses overriding those in superclasses"; an additive
-    property collects the values of the whole chain (most derived first) and so depends
-    on everything any of them depends on.
+    def lin(n):
+        bs = bases.get(n, ())
+        if not bs:
+            return [n]
+        seqs = [lin(b) for b in bs] + [list(bs)]
+        out = [n]
+        while any(seqs):
+            for seq in seqs:
+                if not seq:
+                    continue
+                head = seq[0]
+                if not any(head in other[1:] for other in seqs):
+                    break
+            else:
+                raise DocError(f"no consistent MRO for {n}")
+            out.append(head)
+            for seq in seqs:
+                if seq and seq[0] == head:
+                    del seq[0]
+        return out
+
+    return lin(name)
+
+
+def merge_defaults(chain: List[Dict[str, Decl]]) -> Dict[str, Merged]:
+    """chain: declarations per class in MRO order, most derived class first.
+
+    "default values from subclasses overriding those in superclasses": the first class of
+    the MRO declaring a property decides.  If that declaration is additive, the property
+    collects the values of *every* declaration of it along the MRO (whatever their own
+    attributes), most derived first, and so depends on everything any of them depends on.
     """
     out: Dict[str, Merged] = {}
     for k, decls in enumerate(chain):
